@@ -25,11 +25,18 @@ class RefGrammar:
         self.rules = rules
         self.binary = self._has_binary() if binary is None else binary
         self._regex_samples = {}
+        # How a *text* terminal inside a binary grammar is read by the recogniser:
+        # "utf-8" (the documented serialisation) or "both" (also the Latin-1 reading the
+        # parser applies to incoming bytes) -- C04 abstains on the difference, C05 does not.
+        self.text_in_binary = "utf-8"
 
     # ------------------------------------------------------------------ analyses
     def _walk(self, e):
         yield e
         k = e[0]
+        if k == "nonempty":
+            yield from self._walk(e[1])
+            return
         if k in ("seq", "alt"):
             for c in e[1]:
                 yield from self._walk(c)
@@ -49,6 +56,21 @@ class RefGrammar:
             if e[0] == "regex" and e[2]:
                 return True
         return False
+
+    def restrict(self, start):
+        """Sub-grammar of the rules reachable from `start` (binary-ness is then relative to it)."""
+        seen, stack = set(), [start]
+        while stack:
+            n = stack.pop()
+            if n in seen or n not in self.rules:
+                continue
+            seen.add(n)
+            for e in self._walk(self.rules[n]):
+                if e[0] == "nt":
+                    stack.append(e[1])
+        m = RefGrammar({n: r for n, r in self.rules.items() if n in seen})
+        m.text_in_binary = self.text_in_binary
+        return m
 
     def has_bits(self):
         return any(e[0] == "bit" for e in self.all_exprs())
@@ -298,7 +320,12 @@ class RefGrammar:
         data = bytes(int(w[i + 8 * b: i + 8 * b + 8], 2) for b in range(nbytes))
         if k == "lit":
             lit = e[1].encode("utf-8") if isinstance(e[1], str) else e[1]
-            return {i + 8 * len(lit)} if data.startswith(lit) else set()
+            out = {i + 8 * len(lit)} if data.startswith(lit) else set()
+            if isinstance(e[1], str) and self.text_in_binary == "both":
+                l1 = _enc(e[1], "latin-1")
+                if l1 is not None and data.startswith(l1):
+                    out.add(i + 8 * len(l1))
+            return out
         if k == "regex":
             out = set()
             pat = _compiled(e[1])
@@ -315,6 +342,11 @@ class RefGrammar:
                         continue
                     if pat.fullmatch(s):
                         out.add(i + 8 * j)
+                if self.text_in_binary == "both":
+                    txt = data.decode("latin-1")
+                    for j in range(0, len(txt) + 1):
+                        if pat.fullmatch(txt, 0, j):
+                            out.add(i + 8 * j)
             return out
         return set()
 
@@ -364,6 +396,8 @@ class RefGrammar:
             if e[4]:
                 mn, mx = 0, None
             res |= self._rep_ends(lambda p: self._ends_fix(e[1], w, p, table, active), i, mn, mx, len(w))
+        elif k == "nonempty":
+            res |= self._ends_fix(e[1], w, i, table, active) - {i}
         active.discard(key)
         table.store[key] = res
         table.done.add(key)
@@ -531,7 +565,10 @@ def from_fandango(grammar):
         if isinstance(n, Concatenation):
             return ("seq", tuple(conv(a) for a in n.nodes))
         if isinstance(n, Repetition):
-            return ("rep", conv(n.node), n.min, n.internal_max, n.bounds_constraint is not None)
+            style = None
+            if type(n) is Repetition and n.internal_max is None:
+                style = "{n,}"
+            return ("rep", conv(n.node), n.min, n.internal_max, n.bounds_constraint is not None, style)
         raise ValueError(f"unknown node {type(n).__name__}")
 
     rules = {nt.name(): conv(node) for nt, node in grammar.rules.items()}
